@@ -24,6 +24,7 @@ import (
 	"os"
 	"path/filepath"
 	"sort"
+	"strconv"
 	"strings"
 	"testing"
 	"time"
@@ -417,7 +418,7 @@ func init() {
 			}
 			// ---- the directory before the compaction
 			dir := e.freshDir()
-			first := 1 + r.Intn(3)
+			first := []int{1, 2, 3, 1, 2, 3, 8, 9, 98, 999}[r.Intn(10)] // incl. indices whose decimal names change length inside the directory
 			nfiles := 1 + r.Intn(3)
 			pos := 0
 			take := func(k int) []vAofRec {
@@ -581,3 +582,73 @@ func init() {
 var recordsHold []int
 var recordsTime []int64
 var recordsVal []int
+
+// mode aoforder (C07): what a restart replays is the journal IN THE ORDER IT WAS WRITTEN. A data dir holds several append files (a
+// compaction was still running when the node stopped: rotations during a compaction do not start another one); their indices straddle
+// a power of ten (…9, …10, …11), run up to 2^16 and beyond; every file holds one or two records whose order matters. The real
+// FindAofFiles + LoadAofFiles must hand the records to the engine file by file in ascending index; the model line is `aofrecover`.
+func vAofOrderRun(t *testing.T) {
+	r := rand.New(rand.NewSource(int64(vEnvInt("VERIF_SEED", 1))))
+	n := vEnvInt("VERIF_N", 12)
+	out := vOpen("aoforder")
+	defer out.close()
+	e := vNewAofEnv(out)
+	defer os.RemoveAll(e.root)
+	firsts := []int{1, 7, 8, 9, 10, 97, 98, 99, 998, 999, 9999, 65534, 99998}
+	T := int64(1700000000 + r.Intn(1000000))
+	for it := 0; it < n; it++ {
+		first := firsts[it%len(firsts)]
+		if it >= len(firsts) {
+			first = 1 + r.Intn(120)
+		}
+		nfiles := 2 + r.Intn(4)
+		cfg := []uint{64, 128, 4096}[r.Intn(3)]
+		dir := e.freshDir()
+		var want []vAofRec
+		seq := 0
+		if r.Intn(3) == 0 {
+			rec := vAofGenRec(r, T, seq, false)
+			rec.buf[57], rec.buf[58], rec.buf[59], rec.buf[60] = 0, 0, 0, 0 // never expired
+			seq++
+			e.write(dir, "rewrite.aof", cfg, []vAofRec{rec}, nil)
+			want = append(want, rec)
+		}
+		for i := 0; i < nfiles; i++ {
+			var recs []vAofRec
+			for j := 0; j < 1+r.Intn(2); j++ {
+				rec := vAofGenRec(r, T, seq, false)
+				rec.buf[57], rec.buf[58], rec.buf[59], rec.buf[60] = 0, 0, 0, 0
+				seq++
+				recs = append(recs, rec)
+			}
+			e.write(dir, fmt.Sprintf("append.aof.%d", first+i), cfg, recs, nil)
+			want = append(want, recs...)
+		}
+		snap := vDirSnapshot(dir)
+		_ = os.RemoveAll(dir)
+		got, st := e.recoverRecs(snap, cfg, T)
+		obs := "err"
+		if st == "ok" {
+			obs = vAofRecsString(got) + ";ok"
+		}
+		out.emit(fmt.Sprintf("aofrecover %d %d %s", cfg, T, vDirString(snap)), obs)
+		out.stat(fmt.Sprintf("first-index-digits=%d", len(strconv.Itoa(first))))
+		if st != "ok" {
+			e.monitor("C07:replay:startup-fails:several-append-files", fmt.Sprintf("a data dir with append files %d..%d (each complete) cannot be loaded", first, first+nfiles-1),
+				map[string]interface{}{"dir": vDirString(snap)})
+			continue
+		}
+		same := len(got) == len(want)
+		for i := 0; same && i < len(want); i++ {
+			same = vAofRecEq(got[i], want[i])
+		}
+		if !same {
+			e.monitor("C07:replay:files-out-of-order", fmt.Sprintf("append files %d..%d: the records are not replayed in the order they were written (ascending file index)", first, first+nfiles-1),
+				map[string]interface{}{"dir": vDirString(snap), "written": vAofRecsString(want), "replayed": vAofRecsString(got)})
+		}
+	}
+}
+
+func init() {
+	vModes["aoforder"] = vAofOrderRun
+}
